@@ -59,6 +59,7 @@ var serviceErrNames = map[uint32]string{
 // sdkErrNames lists the cosmos-sdk root errors (codespace "sdk") that SPEC.md
 // names explicitly. Everything else is rendered as ErrOther:<codespace>:<code>.
 var sdkErrNames = map[uint32]string{
+	4:  "ErrUnauthorized",
 	5:  "ErrInsufficientFunds",
 	6:  "ErrUnknownRequest",
 	7:  "ErrInvalidAddress",
